@@ -28,7 +28,7 @@ def fault_params(tier):
     shp = SHAPES_Q if tier == "quick" else SHAPES_T
     ps = [P("shape", 0, len(shp) - 1), P("fnode", 0, 3 if tier == "quick" else 4), P("phase", 0, 2), P("moment", 0, 1), P("svc", 0, 4)]
     # quick: ONE of {plain exception, ComponentStartError instance, one-member group, type given by reference, timeout=None}; thorough: the full product
-    ps += [P("flavour", 0, 4)] if tier == "quick" else [P("exckind", 0, 2), P("byref", 0, 1), P("notimeout", 0, 1)]
+    ps += [P("flavour", 0, 5)] if tier == "quick" else [P("exckind", 0, 3), P("byref", 0, 1), P("notimeout", 0, 1)]
     for j in range(D):
         ps += [P(f"gap{j}", 0, L), P(f"arm{j}", 0, 4)]
     return ps
@@ -44,11 +44,11 @@ def fault_fn(a, tier):
     phase = pick(a["phase"], 3)
     moment = pick(a["moment"], 2) if phase else 0
     if tier == "quick":
-        flavour = pick(a["flavour"], 5)
-        exckind = flavour if flavour < 3 else 0
+        flavour = pick(a["flavour"], 6)
+        exckind = flavour if flavour < 3 else (3 if flavour == 5 else 0)
     else:
         flavour = None
-        exckind = pick(a["exckind"], 3)
+        exckind = pick(a["exckind"], 4)
     # 0: nothing; 1: other nodes start a service slowly in start(); 2: ... whose startup stalls forever;
     # 3: other nodes start a task factory and a task with a slow start-up in it
     # 4: other nodes are blocked in get_resource() for something nobody provides when the failure strikes
@@ -60,15 +60,17 @@ def fault_fn(a, tier):
         byref, notimeout = pick(a["byref"], 2), pick(a["notimeout"], 2)
     tape = DeviationTape([(a[f"gap{j}"], a[f"arm{j}"]) for j in range(D)], L)
     env = Env()
+    # exckind 3: the component fails inside add_resource(..., teardown_callback=...) with a ResourceConflict (not while being created: plain exception there)
+    conflict = exckind == 3 and phase != 0
     exc = [Boom("boom"), ComponentStartError("starting", "bogus.path", Component),
-           ExceptionGroup("raised by a task group of the component's own", [Boom("the only member")])][exckind]
+           ExceptionGroup("raised by a task group of the component's own", [Boom("the only member")]), Boom("boom")][exckind]
     nodes = []
     # a start-up that stalls forever must not sit below the failing start(): that start() would never be reached
     tmp = [NodeSpec(i, parents[i]) for i in range(n)]
     below = set(descendants(tmp, fnode)) if phase == 2 else set()
     for i in range(n):
         # odd components register a callback that returns a non-coroutine awaitable, all of them also one through a shared @context_teardown function
-        prep = [("tdaw" if i % 2 else "td", f"prep{i}"), ("ctxtd", f"ct{i}"), ("cp",), ("pub", f"res{i}", object(), "default", [RT[i]]), ("cp",)]
+        prep = [("tdaw" if i % 2 else "td", f"prep{i}"), ("ctxtd", f"ct{i}")] + ([("tdnested", "N")] if i == 0 else []) + [("cp",), ("pub", f"res{i}", object(), "default", [RT[i]]), ("cp",)]
         start = [("cp",), ("td", f"start{i}"), ("cp",)]
         if svc == 4:
             if i != fnode and i not in below:
@@ -84,7 +86,7 @@ def fault_fn(a, tier):
                 node.init_raises = exc
             else:
                 steps = prep if phase == 1 else start
-                steps.insert(0 if moment == 0 else (3 if phase == 1 else 2), ("raise", exc))
+                steps.insert(0 if moment == 0 else ((4 if i == 0 else 3) if phase == 1 else 2), ("pubtwice",) if conflict else ("raise", exc))
         nodes.append(node)
     classes = build_classes(env, nodes)
     out = {}
@@ -113,7 +115,7 @@ def fault_fn(a, tier):
 
     _, escaped, k = run(main, chooser=tape)
     summary = {"parents": parents, "failing_component": fnode, "phase": PHASES[phase], "moment": ["first statement", "after a checkpoint"][moment],
-               "exception": type(exc).__name__, "failing_component_declared_by": "'module:attr' string" if byref else "class object", "others_start_service": ["no", "slow startup", "startup stalls forever", "a task factory task with a slow start-up", "no - they are blocked in get_resource() for a resource nobody provides"][svc], "schedule": tape.taken, "timeout": None if notimeout else 1000}
+               "exception": "ResourceConflict raised by its own add_resource(..., teardown_callback=...)" if conflict else type(exc).__name__, "failing_component_declared_by": "'module:attr' string" if byref else "class object", "others_start_service": ["no", "slow startup", "startup stalls forever", "a task factory task with a slow start-up", "no - they are blocked in get_resource() for a resource nobody provides"][svc], "schedule": tape.taken, "timeout": None if notimeout else 1000}
     if escaped is not None:
         return FAIL(f"fault:escaped:{type(escaped).__name__}", f"{escaped!r} log={env.log}", summary)
     e = out["outcome"]
@@ -124,7 +126,14 @@ def fault_fn(a, tier):
     if (e.phase, e.path, e.component_type) != (PHASES[phase], exp_path, classes[fnode]):
         return FAIL(f"fault:imprecise:{PHASES[phase]}:exc={type(exc).__name__}",
                     f"got ({e.phase!r},{e.path!r},{e.component_type}) expected ({PHASES[phase]!r},{exp_path!r},{classes[fnode]})", summary)
-    if e.__cause__ is not exc:
+    if conflict:
+        from asphalt.core import ResourceConflict
+
+        if not isinstance(e.__cause__, ResourceConflict):
+            return FAIL(f"fault:cause-lost:{PHASES[phase]}:conflict", repr(e.__cause__), summary)
+        if ("td", "callback-of-the-refused-resource") in log:
+            return FAIL("fault:teardown-callback-of-a-resource-that-was-refused-ran-at-exit", "", summary)
+    elif e.__cause__ is not exc:
         return FAIL(f"fault:cause-lost:{PHASES[phase]}", repr(e.__cause__), summary)
     if out.get("after") is not None:
         return FAIL(f"fault:surrounding-context-unusable-after-the-failure:{type(out['after']).__name__}", repr(out["after"]), summary)
@@ -169,6 +178,11 @@ def fault_fn(a, tier):
                                 f"{label} vs callback {ev[1]} (registered {'before' if j < at else 'after'} the service's start completed): {log}", summary)
     reg = [ev[1] for ev in log if ev[0] == "td_registered"]
     ran = [ev[1] for ev in log if ev[0] == "td"]
+    if "N" in reg:
+        # the root's callback registers a further one while the teardown runs: that one runs next
+        if "late-N" not in ran or "N" not in ran or ran.index("late-N") != ran.index("N") + 1:
+            return FAIL("fault:callback-registered-during-the-teardown-after-a-failed-start-up-not-run", f"ran={ran}", summary)
+        ran = [x for x in ran if x != "late-N"]
     if ran != list(reversed(reg)) or any(log.index(("td", x)) < log.index(("leaving",)) for x in ran):
         return FAIL("fault:registered-callbacks-not-torn-down-lifo-at-exit", f"registered={reg} ran={ran}", summary)
     if k.live_tasks():
